@@ -14,6 +14,7 @@ import (
 	"pgregory.net/rapid"
 
 	sdk "github.com/cosmos/cosmos-sdk/types"
+	banktypes "github.com/cosmos/cosmos-sdk/x/bank/types"
 	govtypes "github.com/cosmos/cosmos-sdk/x/gov/types"
 
 	aggregatetypes "github.com/teleport-network/teleport/x/aggregate/types"
@@ -29,7 +30,7 @@ import (
 )
 
 const ruleProposals = "sequences of 1-3 proposal contents (all 12 kinds of the xibc client and aggregate modules; client/consensus states of the 4 client types " +
-	"built field-wise with boundary values) on a generated module state (clients imported through validated genesis, aggregate switch), each decoded by the app codec, " +
+	"built field-wise with boundary values) on a generated module state (clients imported through validated genesis, aggregate switch, bank metadata stored beforehand; coin metadata of a content is in 40 % of the draws a copy of stored metadata with one detail changed), each decoded by the app codec, " +
 	"filtered by the real ValidateBasic and executed like gov.EndBlocker (cache context, write on nil error) under the harness's recover, then whole-app EndBlocker+BeginBlocker; " +
 	"non-trivial = content accepted by validation with >= 1 boundary field; distinct by (kind, client type, consensus shape, boundary fields, module state, outcome class)"
 
@@ -384,6 +385,24 @@ func installPreState(t *rapid.T, r *rec.Recorder, w *world, ctx sdk.Context) str
 			r.Label("prestate:genesis imported")
 		}
 	}
+	// bank metadata that is already there when the proposals execute (written by an earlier registration or by genesis):
+	// generated like a proposal's metadata and kept when the bank module's own validation accepts it
+	if chance(t, "preMetadata", 35) {
+		n := rapid.IntRange(1, 2).Draw(t, "preMetadata.n")
+		for i := 0; i < n; i++ {
+			g := newTagger(t)
+			g.rejPct = 0
+			m := g.metadata(w)
+			var verr error
+			if p := guard(func() { verr = m.Validate() }); p != nil || verr != nil {
+				r.Label("prestate:metadata rejected")
+				continue
+			}
+			w.c.App.BankKeeper.SetDenomMetaData(ctx, m)
+			desc = append(desc, "meta:"+clip(m.Base, 8)+fmt.Sprint(g.sortedTags()))
+			r.Label("prestate:metadata stored")
+		}
+	}
 	if chance(t, "aggOff", 8) {
 		kit.Must(w.c.App.GetSubspace(aggregatetypes.ModuleName).Update(ctx, aggregatetypes.ParamStoreKeyEnableAggregate, []byte("false")), "disable aggregate")
 		desc = append(desc, "aggregateDisabled")
@@ -391,15 +410,28 @@ func installPreState(t *rapid.T, r *rec.Recorder, w *world, ctx sdk.Context) str
 	return strings.Join(desc, ",")
 }
 
+// storedMetadata lists the bank metadata of a state in store order.
+func storedMetadata(w *world, ctx sdk.Context) []banktypes.Metadata {
+	var out []banktypes.Metadata
+	w.c.App.BankKeeper.IterateAllDenomMetaData(ctx, func(m banktypes.Metadata) bool {
+		out = append(out, m)
+		return false
+	})
+	return out
+}
+
 func runProposalCase(t *rapid.T, r *rec.Recorder) {
 	w := baseWorld()
 	s0, _ := w.c.Ctx().CacheContext()
+	w.storedMeta = storedMetadata(w, s0)
+	defer func() { w.storedMeta = nil }()
 	pre := installPreState(t, r, w, s0)
 	snapshots := []sdk.Context{s0}
 	history := []stepLog{{Kind: "prestate", State: pre}}
 	n := rapid.IntRange(1, 3).Draw(t, "steps")
 	for i := 0; i < n; i++ {
 		cur := snapshots[len(snapshots)-1]
+		w.storedMeta = storedMetadata(w, cur)
 		gc := genProposal(t, w, existingClients(w, cur))
 		next := execStep(t, r, w, snapshots, gc, &history)
 		snapshots = append(snapshots, next)
